@@ -188,12 +188,34 @@ def ev(e, env):
     if isinstance(e, ast.Call):
         fn = norm(e.func)
         short = fn.split(".")[-1]
+        if isinstance(e.func, ast.Attribute) and e.func.attr == "format" \
+                and isinstance(e.func.value, ast.Constant) and \
+                isinstance(e.func.value.value, str) and not e.keywords:
+            fargs = [ev(a, env) for a in e.args]
+            if any(isinstance(a, list) for a in fargs):
+                raise Unknown("format of an array")
+            try:
+                return e.func.value.value.format(*fargs)
+            except Exception as ex:
+                raise Unknown("format: %s" % ex)
         if isinstance(e.func, ast.Attribute) and not fn.startswith(
                 ("np.", "numpy.", "math.")):
             # method form x.any()
             if short in REDUCE and not e.args:
                 return REDUCE[short](ev(e.func.value, env))
             raise Unknown(fn)
+        if short == "divmod" and isinstance(e.func, ast.Name) and \
+                len(e.args) == 2:
+            a_, b_ = ev(e.args[0], env), ev(e.args[1], env)
+            if isinstance(a_, list) or isinstance(b_, list):
+                raise Unknown("divmod of arrays")
+            return list(divmod(a_, b_))
+        if short == "round" and isinstance(e.func, ast.Name) and \
+                1 <= len(e.args) <= 2:
+            vs_ = [ev(a, env) for a in e.args]
+            if isinstance(vs_[0], list):
+                raise Unknown("round of an array")
+            return round(*vs_)
         if short == "isinstance" and len(e.args) == 2 and \
                 isinstance(e.func, ast.Name):
             v = ev(e.args[0], env)
